@@ -89,7 +89,9 @@ PROPS = {
         "level_text": "Start-iff monitor over scripted gate outcomes (window via the real window.Window with an injected clock, disk check and file creation via the monitor sink) for all motion strings x every single refusal placement, random multi-refusal scripts, and a dedicated window-clock job (absolute windows incl. midnight wrap and exact boundary instants).",
         "level_note": "Sunrise/sunset-relative windows are exercised only through Active()'s boolean; the CPTVFileRecorder disk check is covered by the pipeline job.",
         "technique": "online start-iff monitor with scripted gates and injected window clock",
-        "jobs": [dict(FSM_JOB)],
+        "jobs": [dict(FSM_JOB),
+                 {"pkg": "motion", "test": "TestVerif_C04Window", "shards": (8, 16), "timeout": (300, 1800), "require": ["window_runs", "motion_frames_outside_window", "frames_at_exact_boundary", "windows_spanning_midnight", "recordings"]},
+                 {"pkg": "recorder-main", "test": "TestVerif_C04Pipe", "shards": (6, 6), "timeout": (300, 900), "require": ["pipeline_gate_runs", "pipeline_motion_files"]}],
     },
     "C05": {
         "title": "Throttling bounds recorded frames by the token bucket in every time interval",
@@ -100,7 +102,8 @@ PROPS = {
         "level_text": "Offline checker over the timestamped trace on the wrapped recorder for seeded caller schedules (idle-then-burst, churn at the refill boundary, continuous writing for several buckets, one-frame recordings, clock advances from 0/1ns/one tick +-1ns to 40 days) and for the composition real MotionProcessor -> real ThrottledRecorder under continuous and random motion; the largest observed excess over B + 1.01 r dt is reported.",
         "level_note": "main.go's wiring of the throttle (real clock) is checked one-sidedly by the pipeline job.",
         "technique": "offline interval-bound checker on a timestamped event log (injected clock)",
-        "jobs": [dict(TH_JOB)],
+        "jobs": [dict(TH_JOB),
+                 {"pkg": "recorder-main", "test": "TestVerif_C05Pipe", "shards": (6, 16), "timeout": (600, 2400), "require": ["pipeline_runs", "frames_recorded_throttled", "throttled_files"]}],
     },
     "C06": {
         "title": "Throttle: transparent within budget, clean cuts, restarts only with a full clip",
@@ -197,7 +200,8 @@ PROPS = {
         "level_text": "Fault enumeration: for every short event sequence the number of sink calls is fixed by a fault-free run and one run per call index injects an error exactly there; every run is judged by protocol automata on the three sinks, panic capture and a recovery check. Random multi-fault scripts extend this to long histories.",
         "level_note": "Enumeration is complete for sequences up to the stated length on the listed configurations; longer histories and fault combinations are sampled. The real CPTVFileRecorder under real I/O faults is exercised by the pipeline job.",
         "technique": "protocol-automaton monitors on injected sinks with exhaustive single-fault placement",
-        "jobs": [{"pkg": "motion", "test": "TestVerif_C12", "shards": (16, 16), "timeout": (300, 2400), "require": ["single_fault_runs", "recoveries_checked", "random_faults_injected"]}],
+        "jobs": [{"pkg": "motion", "test": "TestVerif_C12", "shards": (16, 16), "timeout": (300, 2400), "require": ["single_fault_runs", "recoveries_checked", "random_faults_injected"]},
+                 {"pkg": "recorder-main", "test": "TestVerif_C12Pipe", "shards": (12, 16), "timeout": (300, 1800), "require": ["pipeline_fault_runs", "pipeline_faults_injected"]}],
     },
     "C13": {
         "title": "Bad frames are rejected, never recorded or buffered, end the recording cleanly",
@@ -276,7 +280,8 @@ PROPS = {
         "level_text": "Offline trace checker for the continuous and test sinks plus paired-execution comparators (independence from motion, window, gates; motion recording undisturbed by requests), over a request-offset sweep and random scripts.",
         "level_note": "Throttling independence is structural here (the continuous sink is never wrapped); the pipeline job checks it through main.go's wiring.",
         "technique": "offline trace checker + paired-execution comparator on monitor sinks",
-        "jobs": [{"pkg": "motion", "test": "TestVerif_C17", "shards": (16, 16), "timeout": (300, 2400), "require": ["continuous_files", "test_recordings_completed", "test_recordings_overlapping_motion_recording"]}],
+        "jobs": [{"pkg": "motion", "test": "TestVerif_C17", "shards": (16, 16), "timeout": (300, 2400), "require": ["continuous_files", "test_recordings_completed", "test_recordings_overlapping_motion_recording"]},
+                 {"pkg": "recorder-main", "test": "TestVerif_C17Pipe", "shards": (8, 16), "timeout": (300, 1800), "require": ["pipeline_runs", "pipeline_continuous_files", "pipeline_test_recordings"]}],
     },
     "C18": {
         "title": "thermal-writer stores every frame once, in order, in well-formed CPTR files",
@@ -312,12 +317,13 @@ PROPS = {
         "level": "exploration",
         "rule": "every sequence of length 1..5 (thorough 6) over 3 messages x 6 inter-arrival times {0,1ns,I-1ns,I,I+1ns,3I} through Print/Printf with an injected clock, "
                 "plus seeded random sequences (10..10000 messages, hostile strings); shadow model decides print/suppress per message and the exact printed line; "
-                "non-trivial = at least one message was suppressed; distinct by sequence",
+                "non-trivial = at least one message was suppressed; distinct by sequence. Second job: real MotionProcessor with a permanently refusing CheckCanRecord under 2000+ motion frames must log 'Recording not started' at least once and at most (elapsed/1min)+2 times (outer stopwatch, sound direction).",
         "assumptions": COMMON_ASSUME + ["log output captured through log.SetOutput with flags 0"],
         "level_text": "Online shadow-model monitor over every short (message, arrival time) sequence at the interval boundaries and long random sequences; the real limiter runs with an injected clock and its real log output is compared line by line.",
         "level_note": "Trusts the two-variable shadow model; real time is used only in the MotionProcessor consequence job as a one-sided (sound) bound.",
         "technique": "online shadow-model monitor with injected clock",
-        "jobs": [{"pkg": "loglimiter", "test": "TestVerif_C20", "shards": (8, 16), "timeout": (120, 900), "require": ["printed", "suppressed"]}],
+        "jobs": [{"pkg": "loglimiter", "test": "TestVerif_C20", "shards": (8, 16), "timeout": (120, 900), "require": ["printed", "suppressed"]},
+                 {"pkg": "motion", "test": "TestVerif_C20Processor", "shards": (4, 8), "timeout": (120, 900), "require": ["refused_starts", "log_lines"]}],
     },
 }
 
